@@ -116,9 +116,10 @@ func runC19(p *Program, r *Report) {
 	for _, m := range []struct {
 		r string
 		n int
-	}{{"C19.R1", 2}, {"C19.R2", 2}, {"C19.R3", 18}, {"C19.R4", 11}, {"C19.R5", 30}, {"C19.R6", 3}, {"C19.R7", 3}, {"C19.R8", 25}} {
+	}{{"C19.R1", 2}, {"C19.R2", 2}, {"C19.R3", 18}, {"C19.R4", 11}, {"C19.R5", 30}, {"C19.R6", 3}, {"C19.R7", 3}, {"C19.R8", 25}, {"C19.R9", 20}} {
 		r.Min(m.r, m.n)
 	}
+	checkSafeTypeConvertibility(p, r)
 	gates := map[*types.TypeName]bool{}
 	var gps []gateParam
 	// ---- R1 gate types ----------------------------------------------------------------------
@@ -809,3 +810,66 @@ func firstLines(src, mark string) string {
 }
 
 var _ = ast.Inspect
+
+// checkSafeTypeConvertibility (C19.R9): Go converts between two struct types with identical
+// underlying types, unexported fields included when both types live in one package. Two
+// wrapper types declared as struct{ str string } in the same package are therefore
+// convertible by any client: safehtml.Script(safehtml.HTMLEscaped(x)). The wrapper types of
+// each package must be pairwise non-convertible.
+func checkSafeTypeConvertibility(p *Program, r *Report) {
+	n := 0
+	for _, rel := range []string{"", "template"} {
+		pk := p.Pkg(rel)
+		if pk == nil || pk.Types == nil {
+			continue
+		}
+		var ts []*types.TypeName
+		sc := pk.Types.Scope()
+		for _, nm := range sc.Names() {
+			tn, ok := sc.Lookup(nm).(*types.TypeName)
+			if !ok || !tn.Exported() || tn.IsAlias() {
+				continue
+			}
+			if st, ok := tn.Type().Underlying().(*types.Struct); ok && st.NumFields() >= 1 {
+				allUnexp := true
+				for i := 0; i < st.NumFields(); i++ {
+					if st.Field(i).Exported() {
+						allUnexp = false
+					}
+				}
+				if allUnexp && structCarriesOnlyStrings(st) {
+					ts = append(ts, tn)
+				}
+			}
+		}
+		for i, a := range ts {
+			for _, b := range ts[i+1:] {
+				n++
+				c := fmt.Sprintf("convertible:%s.%s<->%s", pk.Types.Name(), a.Name(), b.Name())
+				pos := p.Fset.Position(a.Pos()).String()
+				if types.ConvertibleTo(a.Type(), b.Type()) || types.ConvertibleTo(b.Type(), a.Type()) {
+					r.Viol("C19.R9", c, p.Pos(a.Pos()), fmt.Sprintf("%s and %s have identical underlying types: any client package can write %s.%s(v) for a %s v, obtaining a %s whose contents were only made safe for %s",
+						a.Name(), b.Name(), pk.Types.Name(), b.Name(), a.Name(), b.Name(), a.Name()),
+						fmt.Sprintf("var _ = %s.%s(%s.%s{}) compiles outside the package", pk.Types.Name(), b.Name(), pk.Types.Name(), a.Name()))
+				} else {
+					_ = pos
+					r.OK("C19.R9", c, p.Pos(a.Pos()), "not convertible into each other")
+				}
+			}
+		}
+	}
+	if n == 0 {
+		r.Undec("C19.R9", "safe-types", "", "no wrapper types found")
+	}
+}
+
+// structCarriesOnlyStrings: every field is a string (the wrapper types of the safe-type family).
+func structCarriesOnlyStrings(st *types.Struct) bool {
+	for i := 0; i < st.NumFields(); i++ {
+		b, ok := st.Field(i).Type().Underlying().(*types.Basic)
+		if !ok || b.Kind() != types.String {
+			return false
+		}
+	}
+	return true
+}
